@@ -33,6 +33,7 @@ pub fn sign_patterns(all: bool) -> Vec<[i8; 6]> {
             [1, -1, 1, -1, 1, -1],
             [-1, 1, 1, 1, 1, 1],
             [1, 1, 1, 1, -1, 1],
+            [1, 1, 1, -1, 1, 1],
         ]
     }
 }
@@ -118,11 +119,11 @@ pub fn robot_axis(level: u8, dofs: &[i8]) -> Vec<Parameters> {
             for (gi, g) in geos.iter().enumerate() {
                 for (si, s) in signs.iter().enumerate() {
                     // all 64 signs on 9 geometries, 5 signs elsewhere; offsets rotate
-                    if si >= 5 && gi % 9 != 0 {
+                    if si >= 6 && gi % 9 != 0 {
                         continue;
                     }
                     for (oi, o) in offs.iter().enumerate() {
-                        if si >= 5 && oi != (gi + si) % 3 {
+                        if si >= 6 && oi != (gi + si) % 3 {
                             continue;
                         }
                         out.push(make(g.0, g.1, g.2, g.3, *s, *o, dof));
